@@ -297,6 +297,11 @@ def gate_cases(g):
         if rng.random() < 0.3:
             a[rng.choice(["tq", "tf"])] = rng.choice(["newacc", "other", "Newacc", "newacc2"])
         g.up(m=rng.choice(["POST", "PUT"]), **a)
+    # a session id in the query and another one in the form
+    for sq in ("live", "anon", "dead", "-"):
+        for sf in ("live", "anon", "dead", "-"):
+            g.up(kh="valid", sq=sq, sf=sf)
+            g.up(kf="valid", sq=sq, sf=sf, cq="unknown" if sq == "dead" else "-")
     # the signup exception and its neighbours
     for tq, tf in [("newacc", "-"), ("-", "newacc"), ("other", "-"), ("-", "other"), ("Newacc", "-"), ("newacc", "other"), ("other", "newacc")]:
         for a in [{}, {"cx": "badsig"}, {"cq": "unknown"}, {"sq": "anon"}, {"sq": "dead"}, {"cc": "zero"}, {"cx": "good1"}]:
@@ -733,7 +738,8 @@ def run(ctx):
         st = [l for l in lines[:i + 1] if l.split()[0] not in ("CL", "ID", "FA")]
         if lines[i].split()[0] == "FA":
             st = ["USER 1", lines[i]]
-        return {"case": lines[i], "lines": st[-4000:] if len(st) > 4000 else st}
+        # setup (users, fixtures) + the tail; uploads made in the cut part are then unknown ids
+        return {"case": lines[i], "lines": st[:60] + st[-3000:] if len(st) > 3060 else st}
 
     fails = monitors(lines, impl) + (history_expectations(g, lines, impl) if g is not None else [])
     known = {f["key"] for f in ctx.load_findings() if f["property"] == ctx.pid}
